@@ -121,9 +121,11 @@ def local_limit_runs(tier, viols):
         ("fractional", [{"threads": 0.5, "mem_gb": 1}] * 4, 1, 4),
         # hundredths of a core that are not exact in binary, then a job that needs every core
         ("fraction_then_all", [{"threads": 1.15, "mem_gb": 1}, {"threads": 0.29, "mem_gb": 1}, {"threads": 0.57, "mem_gb": 1}, {"threads": 1.1, "mem_gb": 1}], 3, 4),
+        # jobs that ask for the whole --localmem (exactly, and more: clamped), one after the other
+        ("whole_mem", [{"threads": 1, "mem_gb": 2}, {"threads": 1, "mem_gb": 6}, {"threads": 1, "mem_gb": 1}, {"threads": 1, "mem_gb": 2}], 2, 2),
     ]
     if tier == "quick":
-        configs = configs[:3] + configs[-1:]
+        configs = configs[:3] + configs[-2:]
     report = []
     progs = []
     for name, ress, cores, mem in configs:
@@ -138,7 +140,7 @@ def local_limit_runs(tier, viols):
         for rep in range(1 if tier == "quick" else 4):
             c = procdrv.Cycle(root, os.path.join(base, "%s_%d" % (name, rep)), q, sem[q["name"]], name, delay_ms=120,
                               cores=cores, mem=mem)
-            rc_, dt = c.run(timeout=(60 if name == "fraction_then_all" else 180))
+            rc_, dt = c.run(timeout=(60 if name in ("fraction_then_all", "whole_mem") else 180))
             evs = c.events()
             running = {}
             peak_t = peak_m = 0.0
